@@ -186,7 +186,7 @@ def _raw(case, ctx, d):
     fa = dict(feats, route='extract', channels='array' if g['common_as_array'] else 'list', minus1=-1 in g['common'])
     samples0 = samples.copy()
     for attempt in (1, 2):          # the second call reuses the very same channel / sample objects
-        r = call(extract_waveforms, rd, samples, common, n_samples_waveforms=nsw)
+        r = call(extract_waveforms, rd, samples, common, nsw) if len(samples) % 2 else call(extract_waveforms, rd, samples, common, n_samples_waveforms=nsw)
         if not r.ok:
             ctx.violation('route_raised', desc, 'extract_waveforms (call %d) raised %r' % (attempt, r.exc),
                           dict(fa, exc=r.exc_name, call=attempt), tb=r.tb)
@@ -220,7 +220,8 @@ def _raw(case, ctx, d):
     expw = windows(A, samples, nsw, rows.tolist())
     expf = expw.astype(np.float64) * factor
     fb = dict(feats, route='export', raw_dtype=g['dtype'], factor_type=type(factor).__name__)
-    r = call(export_waveforms, path, rd, samples, rows, n_samples_waveforms=nsw, cache=g['cache'], sample2unit=factor)
+    r = call(export_waveforms, path, rd, samples, rows, nsw, g['cache'], factor) if len(samples) % 2 else \
+        call(export_waveforms, path, rd, samples, rows, n_samples_waveforms=nsw, cache=g['cache'], sample2unit=factor)
     loaded = None
     if not r.ok:
         ctx.violation('route_raised', desc, 'export_waveforms raised %r' % r.exc, dict(fb, exc=r.exc_name), tb=r.tb)
@@ -242,7 +243,7 @@ def _raw(case, ctx, d):
         for q in range(3):
             order = rng.permutation(len(ids))[:int(rng.integers(1, len(ids) + 1))]
             qch = rng.permutation(g['nc'])[:int(rng.integers(1, g['nc'] + 1))]
-            r = call(get_spike_waveforms, ids[order], qch, spike_waveforms=store, n_samples_waveforms=nsw)
+            r = call(get_spike_waveforms, ids[order], qch, store, nsw) if len(order) % 2 else call(get_spike_waveforms, ids[order], qch, spike_waveforms=store, n_samples_waveforms=nsw)
             fc = dict(feats, route='store')
             if not r.ok:
                 ctx.violation('route_raised', desc, 'get_spike_waveforms raised %r' % r.exc, dict(fc, exc=r.exc_name), tb=r.tb)
